@@ -1,7 +1,7 @@
 #!/bin/bash
 # tools/selftest.sh [ID ...]  - every patch under fv/selftest/<ID>/ must make ./check <ID> exit 1 (quick tier) on a scratch copy
 cd /verif
-ids="${@:-$(ls fv/selftest)}"
+ids="${@:-$(cd fv/selftest && ls -d C??)}"
 fail=0
 for id in $ids; do
   for p in fv/selftest/$id/*.patch; do
